@@ -89,7 +89,7 @@ def check_case(acc, case):
     fam = case["fam"]
     key = {"fam": fam}
     try:
-        with core.case_timer():
+        with core.case_timer(case.get("timeout", core.CASE_TIMEOUT_S)):
             if fam == "place":
                 n, b = case["n"], case["b"]
                 B = 64
@@ -326,7 +326,7 @@ def long_cases(tier):
     # very long single cases (block boundaries of a chunked implementation fall inside the data)
     for n in (2500,) if tier == "quick" else (2500, 9000):
         for score, b, mdi, ts in (("CUSUM", 25, 3, 1.0), ("L2cost", 40, 1, 2.0), ("GV", 30, 2, 1.0)):
-            yield {"fam": "data", "x": util.very_long_series(n), "score": score, "b": b, "mdi": mdi, "thr_scale": ts}
+            yield {"fam": "data", "x": util.very_long_series(n), "score": score, "b": b, "mdi": mdi, "thr_scale": ts, "timeout": 900}
     for n in (16, 24) if tier == "quick" else (16, 24, 32, 40):
         for b, mdi in ((4, 1), (6, 2), (5, 1), (8, 3)):
             if n < 2 * b:
